@@ -295,6 +295,8 @@ func runC07(c *Ctx) {
 	c.Doc("R7.3", "in readOperationPack, reading and decoding the operations blob is dominated by the continuing edges of 'version == 0 → error' and 'version != def.FormatVersion → error'")
 	c.Doc("R7.5", "dag.merge returns an Invalid report iff the id of the entity read differs from the id in the ref name, before any ref-moving call")
 	c.Doc("R7.7", "errors of encoding/json.Unmarshal in entity/dag, entities/bug, entities/identity are returned")
+	// a refused history leaves no trace in the local clocks; every commit is visited (shared with C05)
+	checkWitnessAll(c, "R5.3")
 	roots := dataEntryPoints(w)
 	if len(roots) < 15 {
 		c.Violate("R7.1", "expected:entry-points", "module", fmt.Sprintf("only %d entry points resolved (reference ≥ 15)", len(roots)))
@@ -766,6 +768,55 @@ func checkEmptyEntityAndUseBeforeValidate(c *Ctx) {
 						}
 					}
 				}
+			}
+		}
+		// or: a counter that sums len(pack.Operations) for every pack put into the pack map
+		for _, g := range cmpGuards(fn, nil) {
+			k, isK := constInt(g.Y)
+			if !isK || !((g.Op == token.EQL && k == 0) || (g.Op == token.LEQ && k == 0) || (g.Op == token.LSS && k == 1)) {
+				continue
+			}
+			phi, isPhi := g.X.(*ssa.Phi)
+			if !isPhi || succ == nil || !g.If.Block().Dominates(succ.Block()) {
+				continue
+			}
+			zeroInit, summed := false, false
+			for _, e := range phi.Edges {
+				if kk, isKK := constInt(e); isKK && kk == 0 {
+					zeroInit = true
+					continue
+				}
+				add, isAdd := e.(*ssa.BinOp)
+				if !isAdd || add.Op != token.ADD {
+					zeroInit = false
+					break
+				}
+				var other ssa.Value
+				if add.X == ssa.Value(phi) {
+					other = add.Y
+				} else if add.Y == ssa.Value(phi) {
+					other = add.X
+				}
+				lc, isCall := other.(*ssa.Call)
+				if !isCall || len(lc.Common().Args) != 1 {
+					continue
+				}
+				if bi, isB := lc.Common().Value.(*ssa.Builtin); !isB || bi.Name() != "len" {
+					continue
+				}
+				pack, fld, isFld := loadOfField(lc.Common().Args[0])
+				if !isFld || fld != "Operations" {
+					continue
+				}
+				// the same pack is stored into the pack map in the same block (so every pack read is counted)
+				for _, ins := range add.Block().Instrs {
+					if mu, isMU := ins.(*ssa.MapUpdate); isMU && mu.Value == pack && isPackMap(mu.Map.Type()) {
+						summed = true
+					}
+				}
+			}
+			if zeroInit && summed {
+				ok = true
 			}
 		}
 		c.Check(ok, "R7.9", "entity/dag.read:refuses-empty-entity", w.FnPos(fn), "fails iff the operation list is empty, before the success return", "an entity without operations is read successfully: its Id() dereferences a nil first operation (crash in the cache build / ReadAll)")
